@@ -22,6 +22,10 @@ type Guard struct {
 	TailCall func(c ssa.CallInstruction) bool
 	// MinSites is the minimum number of If sites expected (default 1).
 	MinSites int
+	// Callee (optional): name predicate of the guard's callee, used to tell "the guard exists
+	// in the program but is not on this path" (a violation) from "nothing of that name exists
+	// any more" (renamed or restructured: undecided).
+	Callee func(string) bool
 }
 
 // errNonNilFuncs: functions known to always return a non-nil error.
@@ -144,6 +148,9 @@ func successPathsOf(v ssa.Value, r *ssa.Return, b *ssa.BasicBlock, reachable map
 		return nil
 	}
 	seen[v] = true
+	if KnownNonNil(v, b) {
+		return nil // `if err != nil { return err }`: whatever err is a phi of
+	}
 	if phi, ok := v.(*ssa.Phi); ok {
 		var out []SuccessPath
 		pb := phi.Block()
@@ -435,13 +442,15 @@ func GuardCallErrNil(name string, match func(string) bool) Guard {
 			return trueMeansNil, true
 		},
 		TailCall: func(c ssa.CallInstruction) bool { return match(CalleeName(c)) },
+		Callee:   match,
 	}
 }
 
 // GuardCallBool: "if callee(...) {pass}" (want=true) or "if !callee(...) { fail }".
 func GuardCallBool(name string, match func(string) bool, want bool) Guard {
 	return Guard{
-		Name: name,
+		Name:   name,
+		Callee: match,
 		Match: func(i *ssa.If) (bool, bool) {
 			v, neg := BoolCond(i.Cond)
 			c, _ := CallOf(Origin(v))
@@ -490,7 +499,32 @@ func (c *Ctx) CheckGate(rule string, fn *ssa.Function, fnName string, g Guard, s
 	}
 	construct := fmt.Sprintf("%s: success <= %s", fnName, g.Name)
 	if len(r.Sites)+r.TailSites < min {
-		c.Fail(rule, construct, c.P.Pos(fn.Pos()), fmt.Sprintf("guard not found in %s: no branch tests %s (found %d site(s), need %d); a success return is therefore reachable without the check", fnName, g.Name, len(r.Sites)+r.TailSites, min))
+		// is the guard's callee still called anywhere in the program? If not it was renamed or
+		// restructured and the rule has nothing to anchor on.
+		exists := g.Callee == nil
+		if g.Callee != nil {
+			for _, f := range c.P.SrcFuncs() {
+				for _, call := range Calls(f) {
+					if g.Callee(CalleeName(call)) {
+						exists = true
+					}
+				}
+			}
+		}
+		// a function without any success return has nothing to guard
+		anySuccess := false
+		reach := Reachable(fn, nil)
+		for _, ret := range Returns(fn) {
+			if len(success(ret, reach, nil)) > 0 {
+				anySuccess = true
+			}
+		}
+		msg := fmt.Sprintf("guard not found in %s: no branch tests %s (found %d site(s), need %d); a success return is therefore reachable without the check", fnName, g.Name, len(r.Sites)+r.TailSites, min)
+		if !exists || !anySuccess || g.Callee == nil {
+			c.add(rule, construct, c.P.Pos(fn.Pos()), Undecided, msg)
+		} else {
+			c.Fail(rule, construct, c.P.Pos(fn.Pos()), msg)
+		}
 		return false
 	}
 	c.Count("guard_sites", len(r.Sites)+r.TailSites)
